@@ -203,9 +203,12 @@ rule("Arg", ["Expr", "Expr", "Expr", "AnonRoutine", "MLString", "MLString '.' Id
 rule("ArgList", ["Arg", "Arg ',' ArgList", "Arg ',' Arg"], ["Factor0"])
 rule("Factor0", ["Ident", "Number", "String", "'nil'", "Ident", "'True'"], ["Ident", "Number"])
 rule("ConstExpr", ["Number", "String", "Ident", "Number AddOp Number", "'-' Number", "'[' ExprList ']'", "Ident '(' Number ')'", "MLString"], ["Number"])
-rule("Designator", ["Ident", "Ident '.' Ident", "Ident '[' ExprList ']'", "Ident '(' ExprList ')'", "Ident '.' Ident '(' ExprList ')'", "Ident '^'",
-                    "Ident '.' Ident '.' Ident", "Ident '[' Expr ']' '.' Ident", "Ident '(' ')' '.' Ident", "'Self' '.' Ident", "Ident '^' '.' Ident"],
+rule("Designator", ["Ident", "Ident '.' DotName", "Ident '[' ExprList ']'", "Ident '(' ExprList ')'", "Ident '.' DotName '(' ExprList ')'", "Ident '^'",
+                    "Ident '.' Ident '.' DotName", "Ident '[' Expr ']' '.' Ident", "Ident '(' ')' '.' Ident", "'Self' '.' DotName", "Ident '^' '.' Ident"],
      ["Ident"])
+# a member may be spelled like a reserved word: after `.` every word is a name
+rule("DotName", ["Ident", "Ident", "Ident", "KwMember"], ["Ident"])
+rule("KwMember", ["'End'", "'Begin'", "'Type'", "'Asm'", "'Class'", "'Of'"], ["'End'"], ident=True)
 rule("GenericCall", ["TypeIdent '<' TypeArgs '>' '.' 'Create'", "TypeIdent '<' TypeArgs '>' '.' 'Create' '(' ExprList ')'",
                      "Ident '.' Ident '<' TypeName '>' '(' ExprList ')'"], ["TypeIdent '<' TypeName '>' '.' 'Create'"])
 rule("ExprList", ["Expr", "Expr ',' ExprList", "Expr ',' Expr"], ["Factor0"])
